@@ -48,6 +48,9 @@ type scenario struct {
 	ZeroBuf bool
 	// SkipCheck: Reader.SkipHeaderCheck - a valid stream reads the same with the check off.
 	SkipCheck bool
+	// SkipEmpty: the caller does not call Read at all for an unfragmented frame whose header announces no
+	// payload (it has the whole message already) and goes straight to the next NextFrame. Reader entry only.
+	SkipEmpty bool
 	Ctor      int // 0 struct literal, 1 NewReader, 2 NewClientSideReader/NewServerSideReader
 	// ContRead: the OnContinuation callback reads this many bytes (at most) of every
 	// continuation body; they are consumed by the callback, the rest is delivered by Read.
@@ -58,7 +61,7 @@ func (s scenario) describe() interface{} {
 	return map[string]interface{}{
 		"entry": s.Entry, "state": int(s.State), "chunks": s.Chunks, "eof_with_data": s.EOFData,
 		"bufsize": s.BufSize, "frames": ref.Describe(s.Frames), "discards": s.Discards, "want": int(s.Want), "oncontinuation_reads": s.ContRead, "ctor": s.Ctor, "stall_at_frame_starts": s.Stalls, "max_frame_size": s.Limit,
-		"idle_reads_at": s.Idles, "zero_length_reads": s.ZeroBuf, "skip_header_check": s.SkipCheck,
+		"idle_reads_at": s.Idles, "zero_length_reads": s.ZeroBuf, "skip_header_check": s.SkipCheck, "no_read_for_empty_frames": s.SkipEmpty,
 	}
 }
 
@@ -315,6 +318,10 @@ func runReader(s scenario) error {
 			if !sameHeader(h, wantHeader(fh)) {
 				return fmt.Errorf("NextFrame returned %+v, stream has %v", h, fh)
 			}
+			if s.SkipEmpty && h.Length == 0 {
+				got = append(got, seen{"ctl", byte(h.OpCode), nil})
+				continue
+			}
 			p, err := readAll(rd, s.BufSize, idle, s.ZeroBuf)
 			if err != nil {
 				return fmt.Errorf("reading top-level control frame %v: %v", e, err)
@@ -330,6 +337,10 @@ func runReader(s scenario) error {
 			d = s.Discards[msgIdx]
 		}
 		msgIdx++
+		if d < 0 && s.SkipEmpty && h.Length == 0 && h.Fin {
+			got = append(got, seen{"msg", byte(h.OpCode), nil})
+			continue
+		}
 		if d < 0 {
 			p, err := readAll(rd, s.BufSize, idle, s.ZeroBuf)
 			if err != nil {
@@ -606,6 +617,9 @@ func TestReader(t *testing.T) {
 		s.Ctor = rapid.IntRange(0, 2).Draw(t, "ctor")
 		if s.SkipCheck = rapid.IntRange(0, 3).Draw(t, "skipHeaderCheck") == 0; s.SkipCheck {
 			hx.Class("Reader/SkipHeaderCheck")
+		}
+		if s.SkipEmpty = rapid.IntRange(0, 2).Draw(t, "skipEmpty") == 0; s.SkipEmpty {
+			hx.Class("Reader/no-Read-for-empty-unfragmented-frames")
 		}
 		if rapid.IntRange(0, 2).Draw(t, "limit?") == 0 {
 			for _, f := range s.Frames {
